@@ -444,10 +444,13 @@ pub fn main(ctx: &Ctx) {
     ctx.assume("crash points before the initial creation of the database has completed are not explored");
     run_committed_replays(ctx, &C01);
     run_pbt(ctx, &C01, ctx.tier.pick(3_000, 40_000));
+    // process kill of the real server binary at generated instants (needs no syscall shim)
+    run_committed_replays(ctx, &super::c01srv::C01Srv);
+    run_pbt(ctx, &super::c01srv::C01Srv, ctx.tier.pick(400, 8_000));
 }
 
 pub fn replay(ctx: &Ctx, v: &serde_json::Value) -> Option<i32> {
-    replay_file(ctx, &C01, v)
+    replay_file(ctx, &C01, v).or_else(|| replay_file(ctx, &super::c01srv::C01Srv, v))
 }
 
 #[allow(dead_code)]
